@@ -107,9 +107,14 @@ def run_mutant(slot, mut, idx):
         res["status"] = "reported"
         return res
     # no check reported it: ask the repository's tests
-    rc, out = sh("cargo test --workspace --no-fail-fast --offline 2>&1 | grep -E '^test .* FAILED$|^error(\\[E[0-9]+\\])?: ' | grep -v -E 'priv_string_tests::invalid_|error: test failed|error: [0-9]+ target' | head -8", cwd=wt, env=env)
-    rc3, out3 = sh("cargo test --offline -p konst --features 'rust_latest_stable alloc' --no-fail-fast 2>&1 | grep -E '^test .* FAILED$|^error(\\[E[0-9]+\\])?: ' | grep -v -E 'priv_string_tests::invalid_|error: test failed|error: [0-9]+ target' | head -8", cwd=wt, env=env)
-    failed = [l for l in (out + out3).splitlines() if l.strip()]
+    failed = []
+    for cmd in ("cargo test --workspace --no-fail-fast --offline", "cargo test --offline -p konst --features 'rust_latest_stable alloc' --no-fail-fast"):
+        rc, out = sh("timeout -k 5 900 " + cmd + " 2>&1", cwd=wt, env=env)
+        if rc in (124, 137):
+            failed.append("TIMEOUT: " + cmd)
+        for l in out.splitlines():
+            if (re.match(r"^test .* FAILED$", l) or re.match(r"^error(\[E[0-9]+\])?: ", l)) and not re.search(r"priv_string_tests::invalid_|error: test failed|error: [0-9]+ target", l):
+                failed.append(l)
     res["tests_failed"] = failed[:6]
     res["status"] = "MISS" if failed else "SURVIVOR"
     return res
